@@ -138,7 +138,7 @@ impl Property for C19 {
     fn generate(&self, t: &mut Tape, ctx: &Ctx) -> Case {
         if t.chance(1, 40) {
             // an aggregate whose table has hundreds of groups when the interrupt comes
-            let table = DataTable { name: "t".into(), json: t.chance(1, 2), cols: vec![("c0".to_string(), Ty::Int), ("c1".to_string(), Ty::Int)], not_null: None };
+            let table = DataTable { name: "t".into(), json: t.chance(1, 2), cols: vec![("c0".to_string(), Ty::Int), ("c1".to_string(), Ty::Int)], not_null: None, default_col: None };
             let n = 300 + t.draw(1500);
             let modulus = 280 + t.draw(1500) as i64;
             let step = 1 + t.draw(97) as i64;
